@@ -495,5 +495,40 @@ pub fn unsettled_len<M>(m: &Option<OrderedMap<DeliveryTag, M>>) -> (r: Option<us
 pub trait ErrInto<T>: Sized { spec fn conv(self) -> T; fn err_into(self) -> (r: T) ensures r == self.conv(); }
 impl ErrInto<DispositionError> for DispositionError { open spec fn conv(self) -> DispositionError { self } fn err_into(self) -> (r: DispositionError) { let e = self; assert(e == <DispositionError as ErrInto<DispositionError>>::conv(self)); e } }
 
+
+// ---------------------------------------------------------------------------------------------
+// Drop of a link endpoint (C13: dropping a handle sends at most one detach, for the handle the link still holds)
+pub struct LinkH { pub output_handle: Option<OutputHandle> }
+impl LinkH { pub fn output_handle_mut(&mut self) -> (r: &mut Option<OutputHandle>) ensures *r == old(self).output_handle, final(self).output_handle == *final(r) { &mut self.output_handle } }
+impl<T> ChanSender<T> {
+    /// mpsc::Sender::try_send: queues now or fails (full / closed), never waits
+    #[verifier::external_body]
+    pub fn try_send(&mut self, v: T) -> (r: Result<(), ChanSendError>)
+        ensures
+            r is Ok ==> final(self).sent@ == old(self).sent@.push(v) && final(self).failures@ == old(self).failures@,
+            r is Err ==> final(self).sent@ == old(self).sent@ && final(self).failures@ == old(self).failures@ + 1,
+    { unimplemented!() }
+}
+/// SenderInner / ReceiverInner reduced to what their Drop touches (R11)
+pub struct EndpointD { pub link: LinkH, pub outgoing: ChanSender<LinkFrame> }
+pub open spec fn drop_contract(o: EndpointD, n: EndpointD) -> bool {
+    &&& n.link.output_handle is None                                                                            // [C13.drop.handle-released] after the drop the link holds no handle: nothing can be written for it any more
+    &&& (o.link.output_handle is None ==> n.outgoing.sent@ == o.outgoing.sent@)                                  // [C13.drop.no-second-detach] a link that has already sent (or never needed) its detach writes nothing when dropped
+    &&& (o.link.output_handle is Some ==> (n.outgoing.sent@ == o.outgoing.sent@ && n.outgoing.failures@ > o.outgoing.failures@)
+            || n.outgoing.sent@ == o.outgoing.sent@.push(LinkFrame::Detach(Detach { handle: Handle(o.link.output_handle->Some_0.0), closed: true, error: None })))   // [C13.drop.one-closing-detach] otherwise exactly one CLOSING detach for the link's own handle is queued (or none if the channel to the session refuses it)
+}
+impl EndpointD {
+//@@ fn file=fe2o3-amqp/src/link/sender.rs impl=`impl<L: endpoint::SenderLink> Drop for SenderInner<L>` name=drop as=sender_drop id=SenderInner::drop
+//@@ subst `handle.into()` => `output_to_handle(handle)` rule=R16
+//@@ spec
+    ensures drop_contract(*old(self), *final(self)),
+//@@ end
+//@@ fn file=fe2o3-amqp/src/link/receiver.rs impl=`impl<L: endpoint::ReceiverLink> Drop for ReceiverInner<L>` name=drop as=receiver_drop id=ReceiverInner::drop
+//@@ subst `handle.into()` => `output_to_handle(handle)` rule=R16
+//@@ spec
+    ensures drop_contract(*old(self), *final(self)),
+//@@ end
+}
+
 } // verus!
 fn main() {}
